@@ -1,5 +1,6 @@
 """C09 — database commits are height-linked and the reported height is exact (incl. across reopen).
-MC of DbHeight; B1: every edge of the reachable graph replayed on real `Database<D>` objects of the five
+MC of DbHeight (commits accepted, rejected by the height checks, or rejected by the storage backend after the
+height checks passed); B1: every edge of the reachable graph replayed on real `Database<D>` objects of the five
 database kinds (in-memory and RocksDB on a temp dir, reopen = drop + open again); B3: seeded random histories
 with skipped / repeated / mixed / missing heights.  All judged by TLC through Trace_DbHeight."""
 import json
@@ -27,6 +28,10 @@ def run(rep, tier, args):
         "RocksDB databases use StateRewindPolicy::RewindFullRange; graph and random walks roll back only where a "
         "previous block remains; rolling back the ONLY height-carrying block is a dedicated walk (known finding "
         "C09-1: cached height becomes h-1 while no block is left and the metadata table is empty)",
+        "backend-rejected commits (height checks pass, storage returns ConflictingChanges) are part of the action "
+        "space in two forms: a change set that itself writes the metadata entry (all kinds with a height table, through "
+        "Modifiable::commit_changes) and a ChangesList whose two change sets write the same key (on-chain, through "
+        "ImporterDatabase::commit_changes); other backend failures (I/O) are not injected",
         "height-carrying entries are written as raw column bytes (key/value codecs of FuelBlocks, "
         "FuelBlockIdsToHeights, GasPriceMetadata, CompressedBlocks), values are not decoded by the height lookup",
     ]
@@ -80,7 +85,8 @@ def key(lines, names):
         if o["ev"] == "New":
             kb = "%s/%s" % (o.get("kind"), o.get("backend"))
         elif o["ev"] == "Commit":
-            evs.append("C%s:%s" % ("".join(str(x) for x in o["S"]) or "-", o["res"]))
+            cf = o.get("cf", "none")
+            evs.append("C%s%s:%s" % ("".join(str(x) for x in o["S"]) or "-", "" if cf == "none" else "/" + cf, o["res"]))
         elif o["ev"] == "Rollback":
             evs.append("RB:%s" % o["res"])
         else:
